@@ -228,6 +228,18 @@ func regHooks(prop string) Hooks {
 			}
 			if touches {
 				bt.Snap["reg.digest"] = w.C.Digest(w.C.Ctx(), regStores...)
+				if prop == "C08" {
+					// in-state limits on chain before the transaction (for "never raised above the maximum in force")
+					lim := map[string]uint64{}
+					for _, m := range []*RegModel{w.Wrk, w.Bcn} {
+						for _, r := range m.Regs {
+							if so := obsStorage(w, w.C.Ctx(), m.Beacon, r.ID); so.found {
+								lim[fmt.Sprintf("%v/%d", m.Beacon, r.ID)] = so.limit
+							}
+						}
+					}
+					bt.Snap["c08.limits"] = lim
+				}
 			}
 		},
 		AfterTx: func(w *World, bt *BuiltTx) {
@@ -283,6 +295,18 @@ func regHooks(prop string) Hooks {
 					}
 					if bt.OK && (kind == WrkReg || kind == BcnReg) {
 						w.Class("c09.registration")
+					}
+				}
+			}
+			if lim, ok := bt.Snap["c08.limits"].(map[string]uint64); ok && prop == "C08" {
+				for _, m := range []*RegModel{w.Wrk, w.Bcn} {
+					for _, r := range m.Regs {
+						before, had := lim[fmt.Sprintf("%v/%d", m.Beacon, r.ID)]
+						so := obsStorage(w, w.C.Ctx(), m.Beacon, r.ID)
+						if had && so.found && so.limit > before && so.limit > m.P.MaxLimit {
+							w.Fail("C08", "%s %d: this transaction raised the in-state limit from %d to %d, above the maximum in force (%d)", modName(m.Beacon), r.ID, before, so.limit, m.P.MaxLimit)
+							return
+						}
 					}
 				}
 			}
